@@ -87,6 +87,10 @@ def plainClasses (env : Env) (cn tn : String) (sel : List Selection) : List Clas
 
 /-! ### the hypothesis -/
 
+def isField : Selection → Bool
+  | .field .. => true
+  | _ => false
+
 def keyOf : Selection → String
   | .field alias name _ _ _ => alias.getD name
   | _ => ""
